@@ -284,13 +284,36 @@ func runOne(r *Report, base *Ctx, prefix []int, run func(*Ctx)) (c *Ctx, ok bool
 
 // Explore runs the deviation-bounded DFS over the choice tree of run. bound<0: unbounded.
 func Explore(r *Report, base *Ctx, bound int, run func(*Ctx)) {
+	ExploreSlice(r, base, bound, 0, 1, run)
+}
+
+// ExploreSlice explores one slice of the choice tree: the subtrees hanging off the default
+// execution are numbered in DFS order and slice s of n takes those with number % n == s; the
+// default execution itself is counted by slice 0 only (the other slices run it to learn the tree).
+// The union of the n slices is the whole tree, without overlap.
+func ExploreSlice(r *Report, base *Ctx, bound int, slice, slices int, run func(*Ctx)) {
+	if slices < 1 {
+		slices = 1
+	}
+	child := 0
 	var rec func(prefix []int, devs int)
 	rec = func(prefix []int, devs int) {
-		c, ok := runOne(r, base, prefix, run)
-		if !ok {
-			return
+		var c *Ctx
+		var ok bool
+		if len(prefix) == 0 && slice != 0 {
+			scratch := NewReport(r.Property, r.Tier)
+			c, ok = runOne(scratch, base, prefix, run)
+			r.Errors = append(r.Errors, scratch.Errors...)
+			if !ok {
+				return
+			}
+		} else {
+			c, ok = runOne(r, base, prefix, run)
+			if !ok {
+				return
+			}
+			r.finish(c)
 		}
-		r.finish(c)
 		if len(c.Choices) > r.MaxDepth {
 			r.MaxDepth = len(c.Choices)
 		}
@@ -299,6 +322,12 @@ func Explore(r *Report, base *Ctx, bound int, run func(*Ctx)) {
 		}
 		for i := len(prefix); i < len(c.Choices); i++ {
 			for alt := 1; alt < c.Arity[i]; alt++ {
+				if len(prefix) == 0 {
+					child++
+					if (child-1)%slices != slice {
+						continue
+					}
+				}
 				np := make([]int, i+1)
 				copy(np, c.Choices[:i])
 				np[i] = alt
